@@ -1365,7 +1365,7 @@ class Qube(object):
         wod = Qube.__new__(type(self))
         wod.__init__(self._values_, self._mask_, example=self)
         for key,attr in self.__dict__.items():
-            if key.startswith('d_d'):
+            if key.startswith('d_d') or key == '_cache_':
                 pass
             elif isinstance(attr, Qube):
                 wod.__dict__[key] = attr.wod
